@@ -234,6 +234,8 @@ class IndexValidate(Contract):
             # labels only - PandasSubsample), so the index VALUES must be handed on under positional labels, never as their own labels
             out["index_values_handed_on_under_positional_labels"] = getattr(obj, "positional_labels_of", None) is not None
             out["validated_against_the_index_schema"] = sch is schema
+            # C01: the dtype the schema is compared with is the dtype of the INDEX (a tz-aware DatetimeIndex is not datetime64[ns])
+            out["index_values_are_validated_under_the_dtype_of_the_index"] = getattr(obj, "dtype_carried_over", None) is True
             out["subsampling_options_forwarded"] = all(ckw.get(o) is kw[o] for o in ("head", "tail", "sample", "random_state")) and ckw.get("lazy") is lazy
         return out
 
@@ -288,7 +290,29 @@ class IndexValidate(Contract):
                 bad = bad or str(out.index.dtype) != tgt
             return bad, obs
 
-        return coerced_index if "the_coerced_index" in (rec.get("oid") or "") else thunk
+        def index_dtype():
+            """a time-zone-aware DatetimeIndex: a naive Index('datetime64[ns]') rejects it, Index(DatetimeTZDtype) accepts it"""
+            import warnings
+
+            import pandas as pd
+            import pandera as pa
+
+            warnings.simplefilter("ignore")
+            ix = pd.DatetimeIndex(["2020-01-01", "2020-01-02"], tz="UTC")
+            df = pd.DataFrame({"a": [1, 2]}, index=ix)
+            obs, bad = {}, False
+            for label, dt, want in (("Index('datetime64[ns]')", "datetime64[ns]", "rejects"), ("Index(DatetimeTZDtype(tz='UTC'))", pd.DatetimeTZDtype(tz="UTC"), "accepts")):
+                try:
+                    pa.DataFrameSchema({"a": pa.Column(int)}, index=pa.Index(dt)).validate(df)
+                    got = "accepts"
+                except (pa.errors.SchemaError, pa.errors.SchemaErrors):
+                    got = "rejects"
+                obs[label + " on a UTC index"] = got
+                bad = bad or got != want
+            return bad, obs
+
+        oid = rec.get("oid") or ""
+        return coerced_index if "the_coerced_index" in oid else (index_dtype if "dtype_of_the_index" in oid else thunk)
 
 
 class _IndexSeries:
@@ -299,6 +323,7 @@ class _IndexSeries:
 
     def reset_index(self, drop=False):
         s = SeriesVal.fresh("index_as_series", "real")
+        s.dtype_carried_over = True  # Index.to_series keeps the dtype of the index (time zone, categories, nullable integers)
         if drop:
             s.positional_labels_of = self.idx  # labels 0..n-1: unique by construction
         return s
